@@ -124,7 +124,7 @@ fn library_engine(rep: &Report, seed: u64, tier: Tier) {
                 Err(e) => return (label, Err(e), true),
             }
         };
-        let r = subsets_of(Arc::new(bytes), &label);
+        let r = crate::util::catch(|| subsets_of(Arc::new(bytes), &label)).and_then(|x| x);
         (label, r, false)
     });
     for (label, r, build_problem) in out {
